@@ -390,6 +390,8 @@ def run(tier, seed, only=None):
         aero_states(rep, tier, timeout)
     if not only or "conv" in only:
         conventions(rep, tier, timeout)
+    if not only or "geom" in only:
+        geometry_half_full(rep, tier, timeout)
     rep.stubs.add("vortex kernels -> uninterpreted functions (contracts discharged in C01/C05)")
     rep.assumptions = ["real arithmetic", "zero sideslip; cg and symmetric-surface root on the symmetry plane (the off-plane root is posed separately)",
                        "the half and the full model are given the same (symmetrically extended) circulations: equal matrices and right-hand sides imply equal solutions when the system is nonsingular"]
@@ -403,3 +405,84 @@ def replay_file(path):
     print("recorded counterexample: %s" % spec.get("what"))
     print("VIOLATION property=%s replay=%s" % (PID, path))
     return 1
+
+
+def geometry_half_full(rep, tier, timeout):
+    """Geometry design variables: the transformation of the modelled half (symmetry=True) equals the left half of the same
+    transformation applied to the mirror-symmetric full-span mesh (symmetry=False) with mirror-symmetric design variables."""
+    from symoas.sym import lt
+
+    G = "geometry.geometry_mesh_transformations"
+    sizes = [(2, 3)] if tier == "quick" else [(2, 3), (3, 3), (2, 4)]
+    for (nx, nyh) in sizes:
+        nyf = 2 * nyh - 1
+        m = np.empty((nx, nyh, 3), dtype=object)
+        ys = [var("y[%d]" % j) for j in range(nyh - 1)] + [ZERO]
+        for i in range(nx):
+            for j in range(nyh):
+                m[i, j, 0], m[i, j, 1], m[i, j, 2] = var("x[%d,%d]" % (i, j)), ys[j], var("z[%d,%d]" % (i, j))
+        assume = [lt(ys[j], ys[j + 1]) for j in range(nyh - 1)]
+        mf = ext_mesh(m)
+        cmh = K.rect_mesh(nx, nyh, True)
+        cmf = K.rect_mesh(nx, nyf, False)
+        extn = lambda a: np.concatenate([np.asarray(a, dtype=object), np.asarray(a, dtype=object)[:-1][::-1]])
+        tw, ch, xs, zs = (symarray(n, (nyh,)) for n in ("twist", "chord", "xshear", "zshear"))
+        ysh = symarray("yshear", (nyh,))
+        ysh[nyh - 1] = ZERO  # the root stays on the symmetry plane
+        specs = [("Sweep", dict(val=0.0), {"sweep": [var("sweep")]}, None), ("Dihedral", dict(val=0.0), {"dihedral": [var("dihedral")]}, None),
+                 ("Stretch", dict(val=1.0, ref_axis_pos=0.25), {"span": [var("span")]}, None),
+                 ("ScaleX", dict(ref_axis_pos=0.25, nosym=True), {"chord": ch}, {"chord": extn(ch)}),
+                 ("ShearX", dict(nosym=True), {"xshear": xs}, {"xshear": extn(xs)}), ("ShearZ", dict(nosym=True), {"zshear": zs}, {"zshear": extn(zs)}),
+                 ("ShearY", dict(nosym=True), {"yshear": ysh}, {"yshear": np.concatenate([ysh, -ysh[:-1][::-1]])}),
+                 ("Rotate", dict(ref_axis_pos=0.25), {"twist": tw}, {"twist": extn(tw)})]
+        for cls, kw, dvh, dvf in specs:
+            kw = dict(kw)
+            nosym = kw.pop("nosym", False)
+            dvf = dvf or dvh
+            mk = lambda shp, symm, ny: SymComp(G, cls, mesh_shape=shp, **({} if nosym else {"symmetry": symm}),
+                                               **({"val": kw["val"]} if "val" in kw else {"val": (np.ones(ny) if cls == "ScaleX" else np.zeros(ny))}),
+                                               **{k: v for k, v in kw.items() if k != "val"})
+            a, b = mk(cmh.shape, True, nyh), mk(cmf.shape, False, nyf)
+            rep.encode(type(a.comp))
+            oh = a.sym1(dict(dvh, in_mesh=m), assumptions=assume)["mesh"]
+            of = b.sym1(dict(dvf, in_mesh=mf), assumptions=assume)["mesh"]
+            obs = idents("mesh", oh, of[:, :nyh, :], assume=assume, meta={"family": "%s: the transformed half mesh is the left half of the transformed full-span mesh" % cls})
+
+            def rp(ob, env, a=a, b=b, dvh=dvh, dvf=dvf):
+                envf = model.FillEnv(env)
+                rh = a.real(num_inputs(dict(dvh, in_mesh=m), envf))["mesh"]
+                rf = b.real(num_inputs(dict(dvf, in_mesh=mf), envf))["mesh"]
+                idx = tuple(ob.meta["idx"])
+                return model.differs(rh[idx], rf[idx], 1e-7), "%s: half model mesh%s = %.9g, full model %.9g" % (a.cls, list(idx), rh[idx], rf[idx])
+
+            nominal = {}
+            for idx in np.ndindex(nx, nyh):
+                nominal["x[%d,%d]" % idx] = float(cmh[idx + (0,)]) + 0.05 * idx[1]
+                nominal["z[%d,%d]" % idx] = 0.02 * idx[0] + 0.03 * idx[1]
+            for j in range(nyh - 1):
+                nominal["y[%d]" % j] = float(cmh[0, j, 1])
+            run_obligations(rep, "%s half vs full [%dx%d]" % (cls, nx, nyh), obs, timeout, replay=rp, levels=(1, 2), relate=[],
+                            family=lambda ob: "geometry: half model vs full model, " + ob.meta["family"], nominal=nominal,
+                            fixed={"sweep": 20.0, "dihedral": 10.0, "span": 12.0})
+        # Taper keeps its mesh as an option: concrete meshes swapped for the symbolic ones after set-up
+        a = SymComp(G, "Taper", val=1.0, mesh=cmh, symmetry=True, ref_axis_pos=0.25)
+        b = SymComp(G, "Taper", val=1.0, mesh=cmf, symmetry=False, ref_axis_pos=0.25)
+        a.comp.options["mesh"], b.comp.options["mesh"] = m, mf
+        try:
+            oh = a.sym1({"taper": [var("taper")]}, assumptions=assume)["mesh"]
+            of = b.sym1({"taper": [var("taper")]}, assumptions=assume)["mesh"]
+        finally:
+            a.comp.options["mesh"], b.comp.options["mesh"] = cmh, cmf
+        obs = idents("mesh", oh, of[:, :nyh, :], assume=assume, meta={"family": "Taper: the transformed half mesh is the left half of the transformed full-span mesh"})
+
+        def rpt(ob, env):
+            envf = model.FillEnv(env)
+            mv = num_inputs({"m": m}, envf)["m"]
+            mfv = np.concatenate([mv, mv[:, :-1][:, ::-1] * np.array([1.0, -1.0, 1.0])], axis=1)
+            rh = SymComp(G, "Taper", val=1.0, mesh=mv, symmetry=True, ref_axis_pos=0.25).real({"taper": [envf["taper"]]})["mesh"]
+            rf = SymComp(G, "Taper", val=1.0, mesh=mfv, symmetry=False, ref_axis_pos=0.25).real({"taper": [envf["taper"]]})["mesh"]
+            idx = tuple(ob.meta["idx"])
+            return model.differs(rh[idx], rf[idx], 1e-7), "Taper: half model mesh%s = %.9g, full model %.9g" % (list(idx), rh[idx], rf[idx])
+
+        run_obligations(rep, "Taper half vs full [%dx%d]" % (nx, nyh), obs, timeout, replay=rpt, levels=(1, 2),
+                        family=lambda ob: "geometry: half model vs full model, " + ob.meta["family"], nominal=nominal, fixed={"taper": 0.5})
